@@ -28,6 +28,8 @@ HOSTILE = [
     # a generator variable named like a double-underscore attribute does not make that attribute readable
     "any(r.__class__ for __class__ in [0])", "any(str(r.__init__.__globals__) != '' for __init__ in [0] for __globals__ in [0])", "any(True for __dict__ in [1]) and r.tags.__dict__", "any(r.s.__class__ == 1 for __class__ in [1])",
     "all(upper.__globals__ for __globals__ in [0])", "any(__class__ == 0 for __class__ in [0]) and r.__class__",
+    # the helper functions take attribute NAMES as text: a double-underscore name is refused there like it is for r.__x__
+    "field_contains(r, ['__slots__'], ['s'])", "field_equals(r, ['__class__'], ['x'])", "field_regex(r, ['__doc__'], '.')", "field_contains(r.tags, ['__doc__'], ['list'])", "field_equals(r, ['s', '__module__'], ['zzz'])",
     "repr.__self__", "str.__subclasses__()", "all.__call__([])", "any.__self__.eval('1')", "lower.__code__", "field_equals.__globals__['__builtins__']", "r.s.format(r)", "'{0.__class__}'.format(r)",
 ]
 # these only look hostile: the callee that is invoked is the whitelisted field type of that name, never the generator variable (no refusal is demanded, only: nothing
@@ -277,7 +279,7 @@ def build(tier="quick", seed=0):
                     return False, f"{e!r}: evaluated to {out[1]!r} instead of being refused"
                 return True
 
-            return prove_paths(name, th, judge, lambda m, p: {"expr": e, "genvar": None, "refuse": ".__" in e})  # (a double-underscore attribute access must be refused as such)
+            return prove_paths(name, th, judge, lambda m, p: {"expr": e, "genvar": None, "refuse": ".__" in e or "['__" in e or "'__" in e and "field_" in e})  # (a double-underscore attribute access must be refused as such)
 
         pack.add(Obligation(name, run, replay=lambda w: {"call": "c09_hostile", "args": w}, functions=FU))
 
